@@ -28,6 +28,25 @@ ops (generated functions, namespace Verif.Asn1Gen; `fuel` = 100000 everywhere):
   vtag  <bytes> <tag> <header?>    validate_tag                -> bytes int
   rint  <bytes> <tag?> <header?>   read_asn1_integer           -> int int
   rbool <bytes> <tag?> <header?>   read_asn1_boolean           -> bool int
+ops (the wrappers and the classes `ASN1Reader` / `ASN1Writer`; a reader state is printed as its view):
+  roct|rseq|rset <bytes> <tag?> <header?>   read_asn1_octet_string|sequence|set   -> bytes int
+  renum <bytes> <tag?> <header?>            read_asn1_enumerated                  -> int int
+  penum <value> <tag?>                      pack_asn1_enumerated                  -> bytes
+  poct  <bytes> <tag?>                      pack_asn1_octet_string                -> bytes
+  Rbool <bytes>                             ASN1Reader_bool                       -> bool
+  Rpeek <bytes>                             ASN1Reader_peek_header                -> header view(unchanged)
+  Rskip <bytes> <header>                    ASN1Reader_skip_value                 -> view
+  Rpskip <bytes>                            peek_header then skip_value           -> view
+  Rrem  <bytes>                             ASN1Reader_get_remaining_data         -> bytes view
+  Rrbool|Rrint|Rroct <bytes> <tag?> <header?>   ASN1Reader_read_boolean|integer|octet_string -> value view
+  Rrenum <bytes> <tag?> <header?> <members>     ASN1Reader_read_enumerated (enumOf members; `1,2,5` | `-`) -> int view
+  Rrseq|Rrset|Rrseqof|Rrsetof <bytes> <tag?> <header?>   read_sequence|set(_of) -> view(content reader) view
+  wprog|wprogw <token>*                     a writer program on `ASN1Writer()`, then get_data -> bytes
+        (wprogw: the root writer is itself used as `with ASN1Writer() as w:`)
+        tokens: `i:<int>:<tag?>` write_integer, `e:..` write_enumerated, `b:<bool>:<tag?>` write_boolean,
+        `o:<bytes>:<tag?>` write_octet_string, `[s:<tag?>` / `[t:<tag?>` / `[S:<tag?>` / `[T:<tag?>`
+        `with cur.push_sequence|push_set|push_sequence_of|push_set_of(tag) as cur:`, `]` end of the block
+  wchild <s|t> <tag?>                       push_sequence|push_set(tag).get_data()  -> bytes
 ops (runtime primitives, namespace Verif.PyRt):
   and a b | or a b | shl a k | shr a k          (k a natural number)
   shle a k | shre a k                           (k any int: pyShlE / pyShrE)
@@ -96,6 +115,42 @@ def parseHeader (s : String) : Option ASN1Header :=
 def parseHeaderOpt (s : String) : Option (Option ASN1Header) :=
   if s == "none" then some none else (parseHeader s).map some
 
+def parseMembers (s : String) : Option (List Int) :=
+  if s == "-" then some [] else (s.splitOn ",").mapM parseInt
+
+/-- writer programs -/
+inductive Cmd where
+  | wi (v : Int) (t : Option ASN1Tag)
+  | we (v : Int) (t : Option ASN1Tag)
+  | wb (v : Bool) (t : Option ASN1Tag)
+  | wo (v : List Nat) (t : Option ASN1Tag)
+  | block (kind : String) (t : Option ASN1Tag) (body : List Cmd)
+
+/-- (commands up to the matching `]` or the end, remaining tokens, whether a `]` ended the list) -/
+partial def parseCmds : List String → Option (List Cmd × List String × Bool)
+  | [] => some ([], [], false)
+  | tok :: rest =>
+    if tok == "]" then some ([], rest, true) else
+    match tok.splitOn ":" with
+    | [k, a, t] => do
+      let t ← parseTagOpt t
+      let c ← (match k with
+        | "i" => (parseInt a).map (Cmd.wi · t)
+        | "e" => (parseInt a).map (Cmd.we · t)
+        | "b" => (parseBool a).map (Cmd.wb · t)
+        | "o" => (parseHex a).map (Cmd.wo · t)
+        | _ => none)
+      let (cs, rest', closed) ← parseCmds rest
+      pure (c :: cs, rest', closed)
+    | [k, t] => do
+      if ¬ (k == "[s" || k == "[t" || k == "[S" || k == "[T") then none
+      let t ← parseTagOpt t
+      let (body, rest', closed) ← parseCmds rest
+      if ¬ closed then none
+      let (cs, rest'', closed') ← parseCmds rest'
+      pure (Cmd.block k t body :: cs, rest'', closed')
+    | _ => none
+
 /-! ### printing -/
 
 def hexDigit (n : Nat) : Char :=
@@ -132,6 +187,27 @@ def showRes {α : Type} (f : α → String) : Except Err α → String
 def showBytesInt (p : List Nat × Int) : String := showBytes p.1 ++ " " ++ showInt p.2
 def showIntInt (p : Int × Int) : String := showInt p.1 ++ " " ++ showInt p.2
 def showBoolInt (p : Bool × Int) : String := showBool p.1 ++ " " ++ showInt p.2
+
+def showReader (r : ASN1Reader) : String := showBytes r.view
+def showBytesReader (p : List Nat × ASN1Reader) : String := showBytes p.1 ++ " " ++ showReader p.2
+def showIntReader (p : Int × ASN1Reader) : String := showInt p.1 ++ " " ++ showReader p.2
+def showBoolReader (p : Bool × ASN1Reader) : String := showBool p.1 ++ " " ++ showReader p.2
+def showReaderReader (p : ASN1Reader × ASN1Reader) : String := showReader p.1 ++ " " ++ showReader p.2
+
+partial def runCmds (w : ASN1Writer) : List Cmd → Except Err ASN1Writer
+  | [] => .ok w
+  | c :: cs => do
+    let w ← (match c with
+      | .wi v t => ASN1Writer_write_integer fuel w v t
+      | .we v t => ASN1Writer_write_enumerated fuel w v t
+      | .wb v t => ASN1Writer_write_boolean fuel w v t
+      | .wo v t => ASN1Writer_write_octet_string fuel w v t
+      | .block k t body =>
+        if k == "[s" then ASN1Writer_with_push_sequence fuel w t (fun c => runCmds c body)
+        else if k == "[t" then ASN1Writer_with_push_set fuel w t (fun c => runCmds c body)
+        else if k == "[S" then ASN1Writer_with_push_sequence_of fuel w t (fun c => runCmds c body)
+        else ASN1Writer_with_push_set_of fuel w t (fun c => runCmds c body))
+    runCmds w cs
 
 /-! ### one case -/
 
@@ -179,6 +255,119 @@ def runCase (op : String) (args : List String) : Option String :=
     let t ← parseTagOpt t
     let h ← parseHeaderOpt h
     pure (showRes showBoolInt (read_asn1_boolean fuel d t h))
+  -- wrappers
+  | "roct", [d, t, h] => do
+    let d ← parseHex d
+    let t ← parseTagOpt t
+    let h ← parseHeaderOpt h
+    pure (showRes showBytesInt (read_asn1_octet_string fuel d t h))
+  | "rseq", [d, t, h] => do
+    let d ← parseHex d
+    let t ← parseTagOpt t
+    let h ← parseHeaderOpt h
+    pure (showRes showBytesInt (read_asn1_sequence fuel d t h))
+  | "rset", [d, t, h] => do
+    let d ← parseHex d
+    let t ← parseTagOpt t
+    let h ← parseHeaderOpt h
+    pure (showRes showBytesInt (read_asn1_set fuel d t h))
+  | "renum", [d, t, h] => do
+    let d ← parseHex d
+    let t ← parseTagOpt t
+    let h ← parseHeaderOpt h
+    pure (showRes showIntInt (read_asn1_enumerated fuel d t h))
+  | "penum", [v, t] => do
+    let v ← parseInt v
+    let t ← parseTagOpt t
+    pure (showRes showBytes (pack_asn1_enumerated fuel v t))
+  | "poct", [d, t] => do
+    let d ← parseHex d
+    let t ← parseTagOpt t
+    pure (showRes showBytes (pack_asn1_octet_string fuel d t))
+  -- ASN1Reader
+  | "Rbool", [d] => do
+    let d ← parseHex d
+    pure (showRes showBool (do let r ← ASN1Reader_init d; ASN1Reader_bool r))
+  | "Rpeek", [d] => do
+    let d ← parseHex d
+    pure (showRes (fun h => showHeader h ++ " " ++ showBytes d) (do let r ← ASN1Reader_init d; ASN1Reader_peek_header fuel r))
+  | "Rskip", [d, h] => do
+    let d ← parseHex d
+    let h ← parseHeader h
+    pure (showRes showReader (do let r ← ASN1Reader_init d; ASN1Reader_skip_value r h))
+  | "Rpskip", [d] => do
+    let d ← parseHex d
+    pure (showRes showReader (do
+      let r ← ASN1Reader_init d
+      let h ← ASN1Reader_peek_header fuel r
+      ASN1Reader_skip_value r h))
+  | "Rrem", [d] => do
+    let d ← parseHex d
+    pure (showRes showBytesReader (do let r ← ASN1Reader_init d; ASN1Reader_get_remaining_data r))
+  | "Rrbool", [d, t, h] => do
+    let d ← parseHex d
+    let t ← parseTagOpt t
+    let h ← parseHeaderOpt h
+    pure (showRes showBoolReader (do let r ← ASN1Reader_init d; ASN1Reader_read_boolean fuel r t h))
+  | "Rrint", [d, t, h] => do
+    let d ← parseHex d
+    let t ← parseTagOpt t
+    let h ← parseHeaderOpt h
+    pure (showRes showIntReader (do let r ← ASN1Reader_init d; ASN1Reader_read_integer fuel r t h))
+  | "Rroct", [d, t, h] => do
+    let d ← parseHex d
+    let t ← parseTagOpt t
+    let h ← parseHeaderOpt h
+    pure (showRes showBytesReader (do let r ← ASN1Reader_init d; ASN1Reader_read_octet_string fuel r t h))
+  | "Rrenum", [d, t, h, ms] => do
+    let d ← parseHex d
+    let t ← parseTagOpt t
+    let h ← parseHeaderOpt h
+    let ms ← parseMembers ms
+    pure (showRes showIntReader (do let r ← ASN1Reader_init d; ASN1Reader_read_enumerated fuel r (enumOf ms) t h))
+  | "Rrseq", [d, t, h] => do
+    let d ← parseHex d
+    let t ← parseTagOpt t
+    let h ← parseHeaderOpt h
+    pure (showRes showReaderReader (do let r ← ASN1Reader_init d; ASN1Reader_read_sequence fuel r t h))
+  | "Rrset", [d, t, h] => do
+    let d ← parseHex d
+    let t ← parseTagOpt t
+    let h ← parseHeaderOpt h
+    pure (showRes showReaderReader (do let r ← ASN1Reader_init d; ASN1Reader_read_set fuel r t h))
+  | "Rrseqof", [d, t, h] => do
+    let d ← parseHex d
+    let t ← parseTagOpt t
+    let h ← parseHeaderOpt h
+    pure (showRes showReaderReader (do let r ← ASN1Reader_init d; ASN1Reader_read_sequence_of fuel r t h))
+  | "Rrsetof", [d, t, h] => do
+    let d ← parseHex d
+    let t ← parseTagOpt t
+    let h ← parseHeaderOpt h
+    pure (showRes showReaderReader (do let r ← ASN1Reader_init d; ASN1Reader_read_set_of fuel r t h))
+  -- ASN1Writer
+  | "wchild", [k, t] => do
+    let t ← parseTagOpt t
+    pure (showRes showBytes (do
+      let w ← ASN1Writer_init none none
+      let c ← (if k == "s" then ASN1Writer_push_sequence w t else ASN1Writer_push_set w t)
+      ASN1Writer_get_data c))
+  | "wprog", toks => do
+    let (cs, _, closed) ← parseCmds toks
+    if closed then none
+    pure (showRes showBytes (do
+      let w ← ASN1Writer_init none none
+      let w ← runCmds w cs
+      ASN1Writer_get_data w))
+  | "wprogw", toks => do
+    let (cs, _, closed) ← parseCmds toks
+    if closed then none
+    pure (showRes showBytes (do
+      let w ← ASN1Writer_init none none
+      let w ← ASN1Writer_enter w
+      let w ← runCmds w cs
+      let w ← ASN1Writer_exit fuel w
+      ASN1Writer_get_data w))
   -- runtime primitives
   | "and", [a, b] => do
     let a ← parseInt a
